@@ -1740,6 +1740,7 @@ def _stateprep_workflow(
         inst_ops = {
             'multistarts': 4,
             'method': 'minimization',
+            'minimizer': LBFGSMinimizer(),
             'ftol': 5e-12,
             'gtol': 1e-14,
         }
@@ -1747,6 +1748,7 @@ def _stateprep_workflow(
             success_threshold=synthesis_epsilon,
             layer_generator=layer_gen,
             instantiate_options=inst_ops,
+            cost=HilbertSchmidtCostGenerator(),
             min_prefix_size=5,
         )
 
@@ -1754,6 +1756,7 @@ def _stateprep_workflow(
         inst_ops = {
             'multistarts': 8,
             'method': 'minimization',
+            'minimizer': LBFGSMinimizer(),
             'ftol': 5e-16,
             'gtol': 1e-15,
         }
@@ -1762,6 +1765,7 @@ def _stateprep_workflow(
                 success_threshold=synthesis_epsilon,
                 layer_generator=layer_gen,
                 instantiate_options=inst_ops,
+                cost=HilbertSchmidtCostGenerator(),
                 min_prefix_size=7,
             )
         else:
@@ -1769,12 +1773,14 @@ def _stateprep_workflow(
                 success_threshold=synthesis_epsilon,
                 layer_generator=layer_gen,
                 instantiate_options=inst_ops,
+                cost=HilbertSchmidtCostGenerator(),
             )
 
     elif optimization_level == 4:
         inst_ops = {
             'multistarts': 8,
             'method': 'minimization',
+            'minimizer': LBFGSMinimizer(),
             'ftol': 5e-16,
             'gtol': 1e-15,
         }
@@ -1783,6 +1789,7 @@ def _stateprep_workflow(
                 success_threshold=synthesis_epsilon,
                 layer_generator=layer_gen,
                 instantiate_options=inst_ops,
+                cost=HilbertSchmidtCostGenerator(),
                 min_prefix_size=7,
             )
         else:
@@ -1790,6 +1797,7 @@ def _stateprep_workflow(
                 success_threshold=synthesis_epsilon,
                 layer_generator=layer_gen,
                 instantiate_options=inst_ops,
+                cost=HilbertSchmidtCostGenerator(),
             )
         synthesis = PermutationAwareSynthesisPass(inner_synthesis=in_synthesis)
 
